@@ -174,6 +174,24 @@ def run(ctx):
                                    "cfg": l3common.cfg_json(cfg), "args": l3gen.cfg_args(c2),
                                    "only_with_q": [x[:200] for x in a if x not in b][:5], "only_with_options": [x[:200] for x in b if x not in a][:5],
                                    "output_tail": out[-600:].decode("latin-1")})
+    # many files under a low limit of open files: --mmap must not need more descriptors than reading does
+    many = {"files": {b"m/f%03d" % i: (b"line %d\n" % i, 0o644) for i in range(90)}, "dirs": [], "applied": None,
+            "series": b"".join(b"m%03d.patch\n" % i for i in range(90)),
+            "patches": {b"m%03d.patch" % i: b"--- a/m/f%03d\n+++ b/m/f%03d\n@@ -1 +1 @@\n-line %d\n+LINE %d\n" % (i, i, i, i) for i in range(90)}}
+    limit = ["bash", "-c", 'ulimit -n 64; exec "$@"', "--"]
+    for th in (1, 2):
+        cfg = l3gen.default_cfg()
+        cfg["threads"] = th
+        cfg["extra"] = ["-q"]
+        base, _, _ = l3gen.run_real(ctx.binary, many, cfg, wrapper=limit)
+        c2 = dict(cfg)
+        c2["extra"] = ["-q", "--mmap"]
+        r2, out, _ = l3gen.run_real(ctx.binary, many, c2, wrapper=limit)
+        hist["90 files under ulimit -n 64"] += 1
+        ctx.coverage["option_runs"] = ctx.coverage.get("option_runs", 0) + 1
+        if r2 != base or l3common.exit_of(base) != "0":
+            ctx.violation({"kind": "presentation-option-changes-result", "options": ["--mmap"], "note": "90 files, 90 patches, ulimit -n 64, threads=%d" % th,
+                           "exit_plain": l3common.exit_of(base), "exit_mmap": l3common.exit_of(r2), "output_tail": out[-400:].decode("latin-1")})
     # location options (-d / -p): the model works on the tree itself, the binary must not care where it is started
     nb = 0
     for (w, cfg), base in list(zip(cases, reals))[: (200 if thorough else 40)]:
